@@ -45,7 +45,7 @@ def oracle(ctx: core.Ctx, recs: list[dict[str, Any]], envs: list[dict[str, Any]]
         ctx.case(f"{k}:{op}:{a}\0{case.get('b', '')}", nontrivial=ok and ta is not None,
                  sample={"op": op, "a": a, "result": rec.get("text")} if ok and op in ("cnf", "dnf") and " " in a else None)
         ctx.count(f"{k}:{op}:" + ("ok" if ok else rec.get("error", "?")))
-        if rec.get("timeout") or ta is None:
+        if rec.get("timeout") or ta is None or ta == E.TIMEOUT:
             continue
         wit = dict(case)
         if not ok:
@@ -72,6 +72,10 @@ def oracle(ctx: core.Ctx, recs: list[dict[str, Any]], envs: list[dict[str, Any]]
             ctx.violate(f"str-raises:{op}:{a}|{case.get('b', '')}", f"str() of the result of {op} raised {text}", wit)
             continue
         t2 = E.truth_of(text, envs)
+        if t2 == E.TIMEOUT:
+            ctx.count("oracle:reparse-timeout")
+            ctx.timeouts += 1
+            continue
         if t2 is None:
             ctx.violate(f"unparsable:{op}:{a}|{case.get('b', '')}", f"text {text!r} (result of {op} on {a!r}) is rejected by poetry-core's parser", wit)
             continue
